@@ -449,7 +449,41 @@ func (s *EtcdStore) CreatePartitions(ctx context.Context, topic string, partitio
 		}
 		s.recordEtcdResult(nil)
 	}
-	return nil
+	return s.syncStoredConfigPartitions(ctx, topic, partitionCount)
+}
+
+// syncStoredConfigPartitions keeps the partition count of a stored topic config
+// in step with the grown topic, as the in-memory store does. Topics without a
+// stored config derive the count from the snapshot and need nothing.
+func (s *EtcdStore) syncStoredConfigPartitions(ctx context.Context, topic string, partitionCount int32) error {
+	ctx, cancel := context.WithTimeout(ctx, 3*time.Second)
+	defer cancel()
+	key := TopicConfigKey(topic)
+	resp, err := s.client.Get(ctx, key)
+	if err != nil {
+		s.recordEtcdResult(err)
+		return err
+	}
+	s.recordEtcdResult(nil)
+	if len(resp.Kvs) == 0 {
+		return nil
+	}
+	cfg, err := DecodeTopicConfig(resp.Kvs[0].Value)
+	if err != nil || cfg.Partitions == partitionCount {
+		return nil
+	}
+	cfg.Partitions = partitionCount
+	payload, err := EncodeTopicConfig(cfg)
+	if err != nil {
+		return err
+	}
+	// Only if nobody rewrote the config meanwhile: a concurrent UpdateTopicConfig wins.
+	_, err = s.client.Txn(ctx).
+		If(clientv3.Compare(clientv3.ModRevision(key), "=", resp.Kvs[0].ModRevision)).
+		Then(clientv3.OpPut(key, string(payload))).
+		Commit()
+	s.recordEtcdResult(err)
+	return err
 }
 
 // CreateTopic currently updates only the in-memory snapshot; the operator is still responsible
